@@ -148,6 +148,34 @@ func (ex *Exec) assert(st *State, cond *Term, label string, detail string) {
 			knownName = "listed"
 		}
 	}
+	// CEGAR-lite for the uninterpreted multiplication: a model of the abstraction is only a candidate;
+	// it is kept if the assertion is also false under the REAL meaning of mul64, otherwise that input
+	// valuation is excluded and the solver is asked again (bounded), and the obligation ends inconclusive.
+	if rr == Sat && ex.Spec != nil && ex.Spec.AbstractMul {
+		tries := 0
+		for rr == Sat && ex.Ctx.Eval(cond, model, realUFs).Sign() != 0 {
+			tries++
+			if tries > 12 {
+				rr = Unknown
+				break
+			}
+			block := ex.Ctx.False
+			for _, in := range st.inputs {
+				if v, ok := model[in.Term.Name]; ok {
+					var k *Term
+					if in.Term.W == 0 {
+						k = ex.Ctx.Bool(v.Sign() != 0)
+					} else {
+						k = ex.Ctx.BVBig(in.Term.W, v)
+					}
+					block = ex.Ctx.Or(block, ex.Ctx.Not(ex.Ctx.Eq(in.Term, k)))
+				}
+			}
+			q = ex.Ctx.And(q, block)
+			rr, model = st.solveFull(q)
+			res.Escalations++
+		}
+	}
 	switch rr {
 	case Unsat:
 		ls.Discharged++
